@@ -422,13 +422,15 @@ fn serialise_router_advertisement(a: &RtrAdvertisement) -> Vec<u8> {
                 v.serialise(&prefix.prefix);
             }
             NDOptionValue::RecursiveDnsServers((lifetime, servers)) => {
-                use std::convert::TryFrom as _;
-                v.serialise(RDNSS.0);
-                v.serialise(u8::try_from(1 + servers.len() * 2).unwrap());
-                v.serialise(0_u16); // Reserved / Padding.
-                v.serialise(u32::try_from(lifetime.as_secs()).unwrap_or(u32::MAX));
-                for server in servers {
-                    v.serialise(server);
+                /* The length octet limits one option to 127 addresses. */
+                for servers in servers.chunks(127) {
+                    v.serialise(RDNSS.0);
+                    v.serialise((1 + servers.len() * 2) as u8);
+                    v.serialise(0_u16); // Reserved / Padding.
+                    v.serialise(u32::try_from(lifetime.as_secs()).unwrap_or(u32::MAX));
+                    for server in servers {
+                        v.serialise(server);
+                    }
                 }
             }
             NDOptionValue::DnsSearchList((lifetime, suffixes)) => {
